@@ -138,7 +138,32 @@ fn evaluate(path: &std::path::Path, prelude: &str, src: &str, curve_idx: usize, 
             }
         }
     }
-    e.pass_claims = quadratic_claims.len() + always_claims.len();
+    // a Num2Bits / Bits2Num instantiation without a CS0010 report is a size judged safe
+    let mut safe_size_claims: Vec<(crate::interp::NodeId, String)> = Vec::new();
+    if curve_idx == 0 && matches!(cfg.definition_type(), program_structure::cfg::DefinitionType::Template) {
+        for bb in cfg.iter() {
+            for s in bb.iter() {
+                if let program_structure::ir::Statement::Substitution { op: program_structure::ir::AssignOp::AssignLocalOrComponent, rhe, meta: var_meta, .. } = s {
+                    if var_meta.type_knowledge().is_local() || var_meta.type_knowledge().is_signal() {
+                        continue;
+                    }
+                    let inner = match rhe {
+                        program_structure::ir::Expression::Update { rhe: inner, .. } => inner.as_ref(),
+                        other => other,
+                    };
+                    if let program_structure::ir::Expression::Call { meta: cm, name, args } = inner {
+                        if (name == "Num2Bits" || name == "Bits2Num") && args.len() == 1 {
+                            let reported = pass_reports.iter().any(|r| r.id() == "CS0010" && r.primary().first().map(|l| l.range == cm.file_location()).unwrap_or(false));
+                            if !reported {
+                                safe_size_claims.push((crate::interp::node_id(&args[0]), format!("{name}({:?})", args[0])));
+                            }
+                        }
+                    }
+                }
+            }
+        }
+    }
+    e.pass_claims = quadratic_claims.len() + always_claims.len() + safe_size_claims.len();
     // (2) constants
     let p: BigInt = gen::PRIMES[curve_idx].parse().unwrap();
     let field = Field::new(&p);
@@ -175,6 +200,18 @@ fn evaluate(path: &std::path::Path, prelude: &str, src: &str, curve_idx: usize, 
                         it.trace.violation = Some(crate::interp::ClaimViolation {
                             kind: "finding-wrong:constant-branch-condition".into(),
                             detail: format!("the condition `{text}` is reported as always {always} but evaluates to {v} (path {:?})", it.trace.path),
+                        });
+                    }
+                }
+            }
+        }
+        for (id, text) in &safe_size_claims {
+            if let Some(vals) = it.trace.node_values.get(id) {
+                for v in vals.iter().flatten() {
+                    if *v >= BigInt::from(field.p.bits()) && it.trace.violation.is_none() {
+                        it.trace.violation = Some(crate::interp::ClaimViolation {
+                            kind: "finding-wrong:size-judged-safe".into(),
+                            detail: format!("`{text}` draws no non-strict conversion warning (size judged smaller than the prime) but the size evaluates to {v} (path {:?})", it.trace.path),
                         });
                     }
                 }
@@ -396,6 +433,9 @@ pub fn run(env: &Env) -> i32 {
     }
     // minimise the source by lines under the same schedule while the signature persists
     for v in violations.iter_mut() {
+        if std::env::var("VERIF_NOMIN").is_ok() {
+            break;
+        }
         let rp = v.replay.clone();
         let sig = v.signature.clone();
         let src = rp["source"].as_str().unwrap_or("").to_string();
